@@ -17,7 +17,8 @@ package logx
 //             its own writer and its own history in the trace; the package state that Setup
 //             guards (setupOnce, writer, options, disableLog) is reset per case.
 // Steps: write (followed by a barrier), burst (several writes with no barrier between them: they
-// race the post-rotation compress/clean-up goroutine; the directory is read at quiescence),
+// race the post-rotation compress/clean-up goroutine; the directory is read at quiescence; a
+// burst longer than the writer's queue is a "flood": the single producer finds the queue full),
 // daychange (daily rule, simulated through the rule), close, closeq (writes still queued when
 // Close is called).
 //
@@ -750,7 +751,8 @@ func runC19Case(c kit.Case, root string, tr *kit.Tracer, rep *kit.Reporter) (v k
 	id := 0
 	// send one record; returns its id
 	send := func(f *c19Fam, size int) (int, error) {
-		id++
+		for id++; w.sizes[id] != 0; id++ { // ids are unique per case: skip those of the pre-existing records
+		}
 		w.sizes[id] = size
 		if w.cfg.Names == "real" && w.cfg.Rule == "size" {
 			// backup names have one-second resolution: keep file starts 1.1 s apart
@@ -837,12 +839,30 @@ func runC19Case(c kit.Case, root string, tr *kit.Tracer, rep *kit.Reporter) (v k
 			f := famOf(st)
 			f.written = true
 			ids := []int{}
-			for _, s := range kit.List(st["sizes"]) {
+			sizes := kit.List(st["sizes"])
+			// a flood: one producer, more records than the writer's queue holds, in a tight loop.  Only
+			// counted here (vacuity guard of the check): did the producer ever find the queue full, i.e.
+			// were as many records outstanding (handed over, ShallRotate not yet asked) as it has slots?
+			flood, full := f.lg != nil && len(sizes) > cap(f.lg.channel), false
+			for _, s := range sizes {
 				rid, err := send(f, kit.Num(s)) // no barrier: the writes race the post-rotation goroutine
 				if err != nil {
 					return infra(err)
 				}
 				ids = append(ids, rid)
+				if flood && !full && f.sent.Load()-(f.rule.calls.Load()-f.rule.markers) >= int64(cap(f.lg.channel)) {
+					full = true
+				}
+			}
+			if flood {
+				rep.Count("flood_bursts", 1)
+				rep.Count("flood_records", len(ids))
+				if full {
+					rep.Count("flood_queue_full", 1)
+				}
+				if op == "closeq" {
+					rep.Count("flood_closeq", 1)
+				}
 			}
 			var cerr error
 			if op == "closeq" {
